@@ -170,23 +170,42 @@ func (rn *runner) run(k int, r *rand.Rand, keys []key, word []sym, rawBodies boo
 		}
 		c.Add("messages", 1)
 		out := lib.Summarize(m, derr)
-		// (a) acceptance must be exactly the model's
-		var mustAccept bool
+		// (a) acceptance must be exactly the model's, except where the statement leaves it open (free)
+		var mustAccept, free bool
 		var reason string
 		switch s.kind {
 		case "T", "X":
 			mustAccept = effect == "set"
 			reason = "template effect " + effect
+			if effect == "delete" && mirror.UnsupportedOnly(reg, rn.mode, msg) {
+				// the only defect is a registry element of a type the library cannot decode, in a lenient mode: a
+				// collector may carry it as opaque octets instead of refusing. Whatever it did is the new truth
+				// for this key; data for it is not judged until the key is defined again.
+				free = true
+				if derr == nil {
+					model[mirror.Key{Domain: kk.dom, TID: kk.tid}] = &mirror.Layout{Gray: true, Opaque: true}
+					c.Add("unsupported_type_templates_accepted_as_opaque", 1)
+				}
+			}
 		case "D":
 			l, ok := before[mirror.Key{Domain: kk.dom, TID: kk.tid}]
 			if !ok {
 				reason = "no valid template in force for this (domain,id)"
-			} else if _, _, okp, why := refipfix.SplitRecords(msg[20:], l.Widths); !okp {
+			} else if l.Opaque {
+				free = true
+			} else if _, pad, okp, why := refipfix.SplitRecords(msg[20:], l.Widths); !okp {
 				reason = "body does not split under the template in force: " + why
+			} else if !refipfix.SameBody(msg[len(msg)-pad:], nil, pad+1) {
+				// leftover bytes that are not zero: padding SHOULD be zero (RFC 7011 3.3.2); accepting and refusing are both defensible
+				free = true
+				c.Add("data_with_nonzero_leftover_not_judged_for_acceptance", 1)
 			} else {
 				mustAccept = true
 				reason = "valid template in force and the body splits under it"
 			}
+		}
+		if free {
+			mustAccept = derr == nil
 		}
 		if mustAccept && derr != nil {
 			cls := "rejected-valid-" + map[string]string{"T": "template", "X": "template", "D": "data"}[s.kind]
@@ -211,7 +230,7 @@ func (rn *runner) run(k int, r *rand.Rand, keys []key, word []sym, rawBodies boo
 		}
 		if s.kind == "D" && derr == nil {
 			// the delivered fields must be those of the most recent template, by name as well
-			if l := before[mirror.Key{Domain: kk.dom, TID: kk.tid}]; l != nil {
+			if l := before[mirror.Key{Domain: kk.dom, TID: kk.tid}]; l != nil && !l.Opaque {
 				for ri, names := range out.RecNames {
 					gi := 0
 					for j, nm := range l.Names {
@@ -250,6 +269,9 @@ func (rn *runner) run(k int, r *rand.Rand, keys []key, word []sym, rawBodies boo
 			l, ok := model[mirror.Key{Domain: ti.ObsDomainID, TID: ti.TemplateID}]
 			if !ok {
 				return fail(i, "template-table", fmt.Sprintf("collector holds (%d,%d), which the model does not", ti.ObsDomainID, ti.TemplateID))
+			}
+			if l.Opaque {
+				continue
 			}
 			if len(l.Fields) != len(ti.Elements) {
 				return fail(i, "template-table", fmt.Sprintf("(%d,%d): %d elements stored, model %d", ti.ObsDomainID, ti.TemplateID, len(ti.Elements), len(l.Fields)))
